@@ -90,12 +90,13 @@ def handle (cmd : String) (args : List Int) : Option String :=
       -- state machine: source (w, t, optional supplied en/fe) → history → slice (asis?) → requests → view
       let (w, t, sup, en, fe, hist, asis, idx, order) ← run (do
         let w ← nat; let t ← rows; let sup ← bool; let en ← pairs; let fe ← rows
-        let hist ← nats; let asis ← bool; let idx ← nats; let order ← nats
+        let hist ← nats; let asis ← nat; let idx ← nats; let order ← nats
         pure (w, t, sup, en, fe, hist, asis, idx, order)) args
       let g0 : State := if sup then { w := w, t := t, en := some en, fe := some fe } else { w := w, t := t }
       let r := do
         let g ← runHist g0 (hist.map varOf)
-        let u ← if asis then g.sliceAsIs idx else g.slice idx
+        -- asis: 0 = repaired, 1 = /repo as it stands, 2 = only fixes/C09-1 applied
+        let u ← g.sliceWith (asis == 1) (asis != 0) idx
         u.view (order.map varOf)
       pure (match r with | some v => encView v | none => "raises")
   | _ => none
